@@ -24,6 +24,8 @@ pub struct MockReg {
 }
 pub static M_BITS: [AtomicU64; N] = [AtomicU64::new(0), AtomicU64::new(0), AtomicU64::new(0)];
 pub static M_CUR: AtomicU8 = AtomicU8::new(0);
+/// what the stand-in's `try_close` answers (true = this was the last reference)
+pub static M_CLOSE: AtomicU8 = AtomicU8::new(0);
 pub struct MData {
     id: u64,
     parent: Option<Id>,
@@ -55,14 +57,27 @@ impl<'a> LookupSpan<'a> for MockReg {
     }
 }
 impl Collect for MockReg {
-    fn register_callsite(&self, _: &'static Metadata<'static>) -> Interest { Interest::always() }
-    fn enabled(&self, _: &Metadata<'_>) -> bool { true }
+    // the three methods below are transcribed from `Registry` (sharded.rs): with per-layer filters registered, the
+    // root collector closes the interest pass / reports whether any filter enabled the emission
+    fn register_callsite(&self, _: &'static Metadata<'static>) -> Interest {
+        if self.next_filter > 0 { return f::take_interest().unwrap_or_else(Interest::always); }
+        Interest::always()
+    }
+    fn enabled(&self, _: &Metadata<'_>) -> bool {
+        if self.next_filter > 0 { return f::event_enabled(); }
+        true
+    }
+    fn event_enabled(&self, _: &Event<'_>) -> bool {
+        if self.next_filter > 0 { return f::event_enabled(); }
+        true
+    }
     fn new_span(&self, _: &span::Attributes<'_>) -> Id { Id::from_u64(1) }
     fn record(&self, _: &Id, _: &span::Record<'_>) {}
     fn record_follows_from(&self, _: &Id, _: &Id) {}
     fn event(&self, _: &Event<'_>) {}
     fn enter(&self, _: &Id) {}
     fn exit(&self, _: &Id) {}
+    fn try_close(&self, _: Id) -> bool { M_CLOSE.load(Ordering::Relaxed) != 0 }
     fn current_span(&self) -> span::Current {
         let c = M_CUR.load(Ordering::Relaxed);
         if c == 0 { span::Current::none() } else { span::Current::new(Id::from_u64(c as u64), sp_meta(3)) }
@@ -121,6 +136,21 @@ impl<C: Collect + for<'l> LookupSpan<'l>> Subscribe<C> for &'static Walk {
             }
             None => W_SCOPE_SOME.store(0, Ordering::Relaxed),
         }
+        }
+        if mode == 4 {
+            // scope walk from the root down (Scope::from_root)
+            match ctx.span_scope(&start) {
+                Some(scope) => {
+                    W_SCOPE_SOME.store(1, Ordering::Relaxed);
+                    let mut n = 0;
+                    for s in scope.from_root() {
+                        if n < N { W_SCOPE[n].store(s.id().into_u64(), Ordering::Relaxed); }
+                        n += 1;
+                    }
+                    W_NSCOPE.store(n, Ordering::Relaxed);
+                }
+                None => W_SCOPE_SOME.store(0, Ordering::Relaxed),
+            }
         }
         if mode == 3 {
             // the span an event belongs to (explicit root / explicit parent / contextual)
@@ -235,6 +265,32 @@ fn c07_ctx_scope() {
     kani::cover!(!leaf_visible);
 }
 
+/// `Scope::from_root`: the same visible spans, root first
+#[kani::proof]
+#[kani::unwind(6)]
+#[kani::stub(std::rt::thread_cleanup, noop)]
+#[kani::stub(core::fmt::write, fmt_write_stub)]
+fn c07_ctx_scope_from_root() {
+    cstack!(st);
+    let (b, want, nw) = setup();
+    MODE.store(4, Ordering::Relaxed);
+    emit(st);
+    assert!(ld(&W_CALLS) == 1);
+    let leaf_visible = visible(b[N - 1]);
+    if leaf_visible {
+        assert!(W_SCOPE_SOME.load(Ordering::Relaxed) == 1);
+        assert!(ld(&W_NSCOPE) == nw);
+        // reversed order: want[nw-1] first
+        if nw == 1 { assert!(W_SCOPE[0].load(Ordering::Relaxed) == want[0]); }
+        if nw == 2 { assert!(W_SCOPE[0].load(Ordering::Relaxed) == want[1] && W_SCOPE[1].load(Ordering::Relaxed) == want[0]); }
+        if nw == 3 { assert!(W_SCOPE[0].load(Ordering::Relaxed) == want[2] && W_SCOPE[1].load(Ordering::Relaxed) == want[1] && W_SCOPE[2].load(Ordering::Relaxed) == want[0]); }
+    } else {
+        assert!(W_SCOPE_SOME.load(Ordering::Relaxed) == 0);
+    }
+    kani::cover!(leaf_visible && nw == 2 && want[1] == 1);
+    kani::cover!(leaf_visible && nw == 3);
+}
+
 /// current span: reported iff the thread's current span is visible to the layer's filter (a hidden current span
 /// yields nothing from the stand-in registry; finding an enabled ancestor on the stack needs the real Registry)
 #[kani::proof]
@@ -255,6 +311,95 @@ fn c07_ctx_current() {
     if vis { assert!(seen == cur as u64); } else { assert!(seen == NONE); }
     kani::cover!(cur != 0 && seen == NONE);
     kani::cover!(cur == 2 && seen == 2);
+}
+
+/// stack for the lifecycle harness: two filtered recording layers (L2: filter bit 0, L1: filter bit 1)
+macro_rules! lstack {
+    ($st:ident) => {
+        vtable_hint();
+        let __stack = core::mem::ManuallyDrop::new(tracing_subscriber::subscribe::CollectExt::with(
+            tracing_subscriber::subscribe::CollectExt::with(MockReg { next_filter: 0 }, (&L2).with_filter(&F2)),
+            (&L1).with_filter(&F1)));
+        let $st = unsafe { crate::common::extend(&*__stack) };
+    };
+}
+
+/// Lifecycle notifications of an existing span under per-layer filters: each layer receives enter / exit / record /
+/// follows-from / close for span k iff ITS OWN filter left k enabled (follows-from: both spans), whatever the other
+/// layer's bit says. The span store is the stand-in (arbitrary bitmaps), the dispatch code is the real
+/// `Layered::{enter, exit, record, record_follows_from, try_close}` and `Filtered::{on_enter, on_exit, on_record,
+/// on_follows_from, on_close}` with `Context::{if_enabled_for, is_enabled_for}`.
+#[kani::proof]
+#[kani::unwind(6)]
+#[kani::stub(std::rt::thread_cleanup, noop)]
+#[kani::stub(core::fmt::write, fmt_write_stub)]
+fn c07_ctx_lifecycle() {
+    lstack!(st);
+    let (b, _, _) = setup();
+    let k: u64 = kani::any();
+    let j: u64 = kani::any();
+    kani::assume(k >= 1 && k <= N as u64 && j >= 1 && j <= N as u64);
+    let closes: bool = kani::any();
+    M_CLOSE.store(closes as u8, Ordering::Relaxed);
+    let (idk, idj) = (Id::from_u64(k), Id::from_u64(j));
+    let bk = if k == 1 { b[0] } else if k == 2 { b[1] } else { b[2] };
+    let bj = if j == 1 { b[0] } else if j == 2 { b[1] } else { b[2] };
+    // visibility per layer: L2 owns filter bit 0, L1 owns filter bit 1
+    let (v1k, v2k) = (bk & 2 == 0, bk & 1 == 0);
+    let (v1j, v2j) = (bj & 2 == 0, bj & 1 == 0);
+    st.enter(&idk);
+    st.exit(&idk);
+    let m = sp_meta(3);
+    let vs = m.fields().value_set(&[]);
+    st.record(&idk, &span::Record::new(&vs));
+    st.record_follows_from(&idk, &idj);
+    let r = st.try_close(idk.clone());
+    assert!(r == closes);
+    assert!(ld(&L1.enter) == v1k as usize && ld(&L2.enter) == v2k as usize);
+    assert!(ld(&L1.exit) == v1k as usize && ld(&L2.exit) == v2k as usize);
+    assert!(ld(&L1.record) == v1k as usize && ld(&L2.record) == v2k as usize);
+    assert!(ld(&L1.follows) == (v1k && v1j) as usize && ld(&L2.follows) == (v2k && v2j) as usize);
+    assert!(ld(&L1.close) == (closes && v1k) as usize && ld(&L2.close) == (closes && v2k) as usize);
+    kani::cover!(v1k && !v2k && closes);
+    kani::cover!(!v1k && v2k);
+    kani::cover!(v1k && !v1j && k != j);
+    kani::cover!(!closes && v1k && v2k);
+}
+
+/// A new span under per-layer filters (macro-side protocol as in c07k2: cached interest from the real
+/// `register_callsite`, `enabled()` only when it is `sometimes`): each layer's `on_new_span` runs iff its own filter
+/// accepted the span, and the per-thread bitmap is empty again afterwards. (The capture of the bitmap into the span's
+/// stored data is the real Registry's job and is outside this harness.)
+#[kani::proof]
+#[kani::unwind(6)]
+#[kani::stub(std::rt::thread_cleanup, noop)]
+#[kani::stub(core::fmt::write, fmt_write_stub)]
+fn c07_ctx_new_span() {
+    lstack!(st);
+    let (_, s1, _) = F1.havoc();
+    let (_, s2, _) = F2.havoc();
+    let m = sp_meta(3);
+    let cached = st.register_callsite(m);
+    assert!(f::bits() == 0);
+    let vs = m.fields().value_set(&[]);
+    let mut created = false;
+    if !cached.is_never() && (cached.is_always() || st.enabled(m)) {
+        let _ = st.new_span(&span::Attributes::new_root(m, &vs));
+        created = true;
+    }
+    if created {
+        assert!(ld(&L1.new_span) == s1 as usize);
+        assert!(ld(&L2.new_span) == s2 as usize);
+    } else {
+        // nobody wanted it
+        assert!(!s1 && !s2);
+        assert!(ld(&L1.new_span) == 0 && ld(&L2.new_span) == 0);
+    }
+    assert!(f::bits() == 0);
+    kani::cover!(created && s1 && !s2);
+    kani::cover!(created && !s1 && s2);
+    kani::cover!(!created);
+    kani::cover!(cached.is_always());
 }
 
 fn vis_of(b: &[u64; N], k: u64) -> bool { if k == 1 { visible(b[0]) } else if k == 2 { visible(b[1]) } else { visible(b[2]) } }
